@@ -15,7 +15,7 @@ Open Scope Z_scope.
    rendering d and every well-typed tree n of the fragment (columns, int / str /
    None constants incl. negative ones, + - * / %, unary - +, comparisons, AND /
    OR / NOT as operators or functions, IN / NOT IN lists incl. empty and with
-   NULL, IS [NOT] NULL), of any depth: the token sequence that __sqlrepr__
+   NULL, with members that are constants or expressions, IS [NOT] NULL), of any depth: the token sequence that __sqlrepr__
    produces, as an SQL lexer sees it, is read by the reference parser as exactly
    the expression the tree stands for.  parse_rendered is total: OutOfFuel and
    SyntaxError are distinct outcomes, excluded by the equation. *)
@@ -113,10 +113,10 @@ Theorem C03_operators_are_functions :
     py_binop PAnd x y = b_AND [x; y] /\ py_binop POr x y = b_OR [x; y] /\ py_unop UInvert x = b_NOT x.
 Proof. exact (@and_operator_is_function). Qed.
 Theorem C03_notin :
-  forall (E : env) (x : node) (l : list atom),
+  forall (E : env) (x : node) (l : list node),
     b_NOTIN x (NList l) = b_NOT (b_IN x (NList l)) /\
-    evaln E (b_NOTIN x (NList l)) = v_in true (evaln E x) (map atom_val l) /\
-    evaln E (b_IN x (NList l)) = v_in false (evaln E x) (map atom_val l).
+    evaln E (b_NOTIN x (NList l)) = v_in true (evaln E x) (map (evaln E) l) /\
+    evaln E (b_IN x (NList l)) = v_in false (evaln E x) (map (evaln E) l).
 Proof. exact (fun E x l => conj (notin_is_not_in x l) (notin_meaning E x l)). Qed.
 (* x IN () is FALSE and x NOT IN () is TRUE on every row, NULL x included *)
 Theorem C03_empty_in :
@@ -185,7 +185,7 @@ Definition ex1 : node :=
   py_binop POr
     (py_binop PAnd
        (py_binop PLe (py_binop PMod (py_unop UNeg (py_binop PMod (NAtom (AInt 7)) n0)) n1) (NAtom (AInt (-5))))
-       (py_unop UInvert (b_NOTIN n1 (NList [AInt 1; ANone; AInt (-3)]))))
+       (py_unop UInvert (b_NOTIN n1 (NList [NAtom (AInt 1); NAtom ANone; NAtom (AInt (-3))]))))
     (b_AND [b0; py_binop PEq s0 (NAtom ANone); b_IN s0 (NList [])]).
 Example C03_ex1_hyps : wt ex1 = true /\ wt_filter ex1 = true /\ no_subquery ex1 = true /\ no_eq_none ex1 = true.
 Proof. vm_compute. auto. Qed.
@@ -230,10 +230,33 @@ Proof. vm_compute. auto. Qed.
 (* three-valued logic at work: n1 NOT IN (1, NULL, -3) is never TRUE *)
 Definition env1 (v : val) : env := {| e_col := fun c => match c with Col TyNum 1%N => v | _ => VNull end; e_sub := fun _ => [] |}.
 Example C03_notin_null :
-  evaln (env1 (VInt 5)) (b_NOTIN n1 (NList [AInt 1; ANone; AInt (-3)])) = VNull /\
-  evaln (env1 (VInt 1)) (b_NOTIN n1 (NList [AInt 1; ANone; AInt (-3)])) = VInt 0 /\
+  evaln (env1 (VInt 5)) (b_NOTIN n1 (NList [NAtom (AInt 1); NAtom ANone; NAtom (AInt (-3))])) = VNull /\
+  evaln (env1 (VInt 1)) (b_NOTIN n1 (NList [NAtom (AInt 1); NAtom ANone; NAtom (AInt (-3))])) = VInt 0 /\
   evaln (env1 VNull) (b_NOTIN n1 (NList [])) = VInt 1.
 Proof. vm_compute. auto. Qed.
+(* IN lists whose members are columns and arithmetic, mixed with constants and None *)
+Definition ex3 : node :=
+  py_binop POr (b_IN n0 (NList [n1; py_binop PAdd n1 (NAtom (AInt 1)); NAtom (AInt (-7)); NAtom ANone]))
+               (b_NOTIN (py_unop UNeg n1) (NList [py_binop PMod (NAtom (AInt 7)) n0; n0; NAtom (AInt 2)])).
+Example C03_ex3_hyps : wt ex3 = true /\ wt_filter ex3 = true /\ no_subquery ex3 = true.
+Proof. vm_compute. auto. Qed.
+Example C03_ex3_text :
+  show (render Sqlite ex3) =
+  codes "(((c03t.n0) IN (c03t.n1, ((c03t.n1) + (1)), -7, NULL)) OR (NOT ((- c03t.n1) IN (MOD(7, c03t.n0), c03t.n0, 2))))"%string.
+Proof. vm_compute. reflexivity. Qed.
+Example C03_ex3_parses :
+  parse_rendered std_table (render Sqlite ex3) = Parsed (denote ex3) /\
+  lex (schema_words harness_cols) (show (render Mysql ex3)) = LOk (sql_tokens (render Mysql ex3)).
+Proof. vm_compute. auto. Qed.
+(* every member takes part: n0 = n1 + 1 matches through the second member only *)
+Definition env3 : env :=
+  {| e_col := fun c => match c with Col TyNum 0%N => VInt 5 | Col TyNum 1%N => VInt 4 | _ => VNull end;
+     e_sub := fun _ => [] |}.
+Example C03_ex3_every_member_counts :
+  evaln env3 (b_IN n0 (NList [n1; py_binop PAdd n1 (NAtom (AInt 1)); NAtom (AInt (-7))])) = VInt 1 /\
+  evaln env3 (b_IN n0 (NList [n1])) = VInt 0.
+Proof. vm_compute. auto. Qed.
+
 (* IN-subqueries in every position *)
 Definition ex2 : node :=
   b_AND [b_IN (py_binop PAdd n0 (NAtom (AInt 1))) (NSelect 0);
